@@ -219,6 +219,65 @@ def host_source(t, libname, calls):
     return "\n".join(lines) + "\n"
 
 
+# ---------------------------------------------------------------------------------------------- batches
+class Batch:
+    """One Go module holding several generated trees (tree k: main package <mod>/tk, its libraries below it).
+    All main packages of a batch are compiled by ONE llgo invocation (`llgo install ./t0 ./t1 …`): llgo loads and
+    type-checks its whole runtime per invocation, which dominates the cost of a small program."""
+
+    def __init__(self, ctx, work, mod, mode):
+        self.ctx, self.mod, self.mode = ctx, mod, mode
+        self.dir = os.path.join(work, mod)
+        self.recs = []
+
+    def add(self, rng, **kw):
+        name = "t%d" % len(self.recs)
+        t = treegen.gen_tree(rng, self.mod + "/" + name, **kw)
+        rec = {"name": self.mod + "/" + name, "short": name, "tree": t, "mode": self.mode, "dir": os.path.join(self.dir, name)}
+        self.recs.append(rec)
+        return rec
+
+    def write(self):
+        files = {}
+        for r in self.recs:
+            for fn, content in r["tree"].files.items():
+                files[r["short"] + "/" + fn] = content
+        write_module(self.dir, files, modname=self.mod)
+
+    def reference(self):
+        """the same module built by the reference Go toolchain"""
+        out = os.path.join(self.dir, "ref")
+        os.makedirs(out, exist_ok=True)
+        pr = _run(["go", "build", "-o", out + os.sep] + ["./" + r["short"] for r in self.recs], self.dir, go_env())
+        if pr.returncode != 0:
+            raise RuntimeError("the reference toolchain rejects a generated tree (generator bug): %s\n%s" % (self.mod, pr.stderr[-2000:]))
+        for r in self.recs:
+            _, rerr, _ = run_prog(os.path.join(out, r["short"]))
+            r["ref"] = trace_of(rerr)
+
+    def build(self, env, opt, genll=False):
+        ctx = self.ctx
+        gobin = os.path.join(self.dir, "bin")
+        os.makedirs(gobin, exist_ok=True)
+        flags = ["-tags", "nogc", opt] + (["-gen-llfiles"] if genll else [])
+        e = dict(env)
+        e["GOBIN"] = gobin
+        pb = _run([ctx.llgo, "install"] + flags + ["./" + r["short"] for r in self.recs], self.dir, e)
+        ok = pb.returncode == 0 and all(os.path.exists(os.path.join(gobin, r["short"])) for r in self.recs)
+        for r in self.recs:
+            r["build_rc"], r["build_err"] = (0, "") if ok else (pb.returncode or 1, (pb.stdout + pb.stderr)[-1500:])
+            r["prog"] = os.path.join(gobin, r["short"])
+        if not ok:      # isolate the tree(s) that do not compile
+            ctx.log("batch %s failed as a whole, building its trees one by one" % self.mod)
+            for r in self.recs:
+                p1 = _run([ctx.llgo, "build"] + flags + ["-o", r["prog"], "./" + r["short"]], self.dir, env)
+                r["build_rc"], r["build_err"] = p1.returncode, (p1.stdout + p1.stderr)[-1500:]
+        for r in self.recs:
+            if r["build_rc"] == 0:
+                _, err, rc = run_prog(r["prog"])
+                r["real"], r["rc"] = trace_of(err), rc
+
+
 # ---------------------------------------------------------------------------------------------- the check
 def run(ctx, args):
     quick = ctx.tier == "quick"
@@ -232,20 +291,21 @@ def run(ctx, args):
     notes = []
 
     # ------------------------------------------------------------------ trees
-    n_facts, n_o0, n_o2, n_arch = (3, 5, 2, 1) if quick else (8, 40, 10, 4)
-    plan = []     # (name, tree, mode)  mode: facts | O0 | O2 | arch
-    k = 0
+    n_facts, n_o0, n_o2, n_arch = (3, 6, 2, 1) if quick else (8, 40, 10, 4)
+    bf, be, bo = Batch(ctx, work, "c12f", "facts"), Batch(ctx, work, "c12e", "O0"), Batch(ctx, work, "c12o", "O2")
+    for i in range(n_facts):      # compiled with -gen-llfiles: no sync/atomic (see the note below)
+        bf.add(rng, npk=[8, 5, 3][i] if i < 3 else None, atomic=False)
     for s in CORPUS_SEEDS:
-        plan.append(("c12c%d" % s, treegen.gen_tree(random.Random(s), "c12c%d" % s), "O0"))
-    for i in range(n_facts):
-        npk = [8, 5, 3][i] if i < 3 else None
-        plan.append(("c12f%d" % i, treegen.gen_tree(rng, "c12f%d" % i, npk=npk, atomic=False), "facts"))
+        be.add(random.Random(s))
     for i in range(max(0, n_o0 - len(CORPUS_SEEDS))):
-        plan.append(("c12t%d" % i, treegen.gen_tree(rng, "c12t%d" % i), "O0"))
+        be.add(rng, atomic=(True if i == 0 else None))
     for i in range(n_o2):
-        plan.append(("c12o%d" % i, treegen.gen_tree(rng, "c12o%d" % i, npk=rng.randint(5, 8)), "O2"))
+        bo.add(rng, npk=rng.randint(5, 8))
+    archs = []
     for i in range(n_arch):
-        plan.append(("c12a%d" % i, treegen.gen_tree(rng, "c12a%d" % i, npk=rng.randint(4, 7), atomic=(i % 2 == 1)), "arch"))
+        ba = Batch(ctx, work, "c12a%d" % i, "arch")
+        ba.add(rng, npk=rng.randint(4, 7), atomic=(i % 2 == 1))
+        archs.append(ba)
 
     # ------------------------------------------------------------------ tie A, part 1: the patched std package
     facts, entries, fact_names = [], [], []
@@ -297,69 +357,64 @@ def run(ctx, args):
     ctx.log("sync/atomic IR facts:", n_std_facts, std_broken or "")
 
     # ------------------------------------------------------------------ build every tree (llgo + reference)
-    results = []
-    for name, t, mode in plan:
-        d = os.path.join(work, name)
-        write_module(d, t.files)
-        rec = {"name": name, "tree": t, "mode": mode, "dir": d}
-        results.append(rec)
-        pr = go_run_reference(ctx, d, os.path.join(d, "ref.bin"))
-        if pr.returncode != 0:
-            raise RuntimeError("the reference toolchain rejects a generated tree (generator bug): %s\n%s" % (name, pr.stderr[-2000:]))
-        _, rerr, rrc = run_prog(os.path.join(d, "ref.bin"))
-        rec["ref"] = trace_of(rerr)
-        if mode == "arch":
-            lib = os.path.join(d, "out", "lib%s.a" % name)
-            os.makedirs(os.path.join(d, "out"))
-            pb = _run([ctx.llgo, "build", "-tags", "nogc", "-O0", "-buildmode=c-archive", "-o", lib, "."], d, env)
-            rec["build_rc"], rec["build_err"] = pb.returncode, (pb.stdout + pb.stderr)[-1500:]
-            if pb.returncode == 0:
-                reach = sorted(t.reachable)
-                main = len(t.pkgs) - 1
-                calls = [rng.choice(reach) for _ in range(rng.randint(1, 3))] + [main, rng.choice(reach), main]
-                rec["calls"] = calls
-                x = os.path.join(d, "out", "x")
-                os.makedirs(x)
-                _run(["ar", "x", lib], x, env)
-                open(os.path.join(d, "out", "host.c"), "w").write(host_source(t, "lib" + name, calls))
-                members = sorted(glob.glob(os.path.join(x, "*.o"))) + sorted(glob.glob(os.path.join(x, "*.a")))
-                # clang, not gcc: GNU as rejects the `/` of Go symbol names in the header's __asm labels
-                pl = _run(["clang", "-o", os.path.join(d, "out", "host"), "host.c", "-Wl,--start-group"] + members +
-                          ["-Wl,--end-group", "-lpthread", "-lm", "-ldl"], os.path.join(d, "out"), env)
-                rec["link_rc"], rec["link_err"] = pl.returncode, (pl.stdout + pl.stderr)[-1500:]
-                if pl.returncode == 0:
-                    _, err, rc = run_prog(os.path.join(d, "out", "host"))
-                    rec["real"], rec["rc"] = trace_of(err), rc
-            continue
-        opt = "-O2" if mode == "O2" else "-O0"
-        cmd = [ctx.llgo, "build", "-tags", "nogc", opt] + (["-gen-llfiles"] if mode == "facts" else []) + ["-o", os.path.join(d, "prog"), "."]
-        pb = _run(cmd, d, env)
+    for b, opt, genll in ((bf, "-O0", True), (be, "-O0", False), (bo, "-O2", False)):
+        if b.recs:
+            b.write()
+            b.reference()
+            b.build(env, opt, genll)
+            ctx.log("batch %s: %d trees, %s%s" % (b.mod, len(b.recs), opt, " -gen-llfiles" if genll else ""))
+    for r in bf.recs:
+        t = r["tree"]
+        gl = go_list_imports(ctx, ["./" + r["short"] + "/..."], bf.dir, env)
+        ids = {p.path: p.id for p in t.pkgs}
+        for pk in t.pkgs:
+            if pk.id not in t.reachable:
+                continue
+            ll = idx.find(pk.path)
+            toks = irfacts.init_tokens(open(ll, errors="replace").read(), pk.path) if ll else None
+            if toks is None:
+                diag.append("%s: no IR / no init function found" % pk.path)
+                toks = []
+            golist = [x for x in gl.get(pk.path, ("", []))[1] if x != "unsafe"]
+            add_fact(pk.path + ".init", pk.id, toks, t.imports_order[pk.id], golist, ids)
+        ll = idx.find(t.mod + ".main")
+        et = irfacts.entry_tokens(open(ll, errors="replace").read(), t.mod) if ll else None
+        if et is None:
+            diag.append("%s: entry module not found" % t.mod)
+            et = ["other"]
+        entries.append("  -- %s\n  { calls := [%s] }" % (t.mod, ", ".join("." + x for x in et)))
+        r["entry"] = et
+    for ba in archs:
+        ba.write()
+        ba.reference()
+        rec = ba.recs[0]
+        t = rec["tree"]
+        out = os.path.join(ba.dir, "out")
+        os.makedirs(out)
+        libname = "lib" + ba.mod
+        lib = os.path.join(out, libname + ".a")
+        pb = _run([ctx.llgo, "build", "-tags", "nogc", "-O0", "-buildmode=c-archive", "-o", lib, "./t0"], ba.dir, env)
         rec["build_rc"], rec["build_err"] = pb.returncode, (pb.stdout + pb.stderr)[-1500:]
         if pb.returncode == 0:
-            _, err, rc = run_prog(os.path.join(d, "prog"))
-            rec["real"], rec["rc"] = trace_of(err), rc
-        if mode == "facts":
-            gl = go_list_imports(ctx, ["./..."], d, env)
-            ids = {p.path: p.id for p in t.pkgs}
-            for pk in t.pkgs:
-                if pk.id not in t.reachable:
-                    continue
-                ll = idx.find(pk.path)
-                toks = irfacts.init_tokens(open(ll, errors="replace").read(), pk.path) if ll else None
-                if toks is None:
-                    diag.append("%s: no IR / no init function found" % pk.path)
-                    toks = []
-                golist = [x for x in gl.get(pk.path, ("", []))[1] if x != "unsafe"]
-                add_fact(pk.path + ".init", pk.id, toks, t.imports_order[pk.id], golist, ids)
-            ll = idx.find(t.mod + ".main")
-            et = irfacts.entry_tokens(open(ll, errors="replace").read(), t.mod) if ll else None
-            if et is None:
-                diag.append("%s: entry module not found" % t.mod)
-                et = ["other"]
-            entries.append("  -- %s\n  { calls := [%s] }" % (t.mod, ", ".join("." + x for x in et)))
-            rec["entry"] = et
+            reach = sorted(t.reachable)
+            main = len(t.pkgs) - 1
+            calls = [rng.choice(reach) for _ in range(rng.randint(1, 3))] + [main, rng.choice(reach), main]
+            rec["calls"] = calls
+            x = os.path.join(out, "x")
+            os.makedirs(x)
+            _run(["ar", "x", lib], x, env)
+            open(os.path.join(out, "host.c"), "w").write(host_source(t, libname, calls))
+            members = sorted(glob.glob(os.path.join(x, "*.o"))) + sorted(glob.glob(os.path.join(x, "*.a")))
+            # clang, not gcc: GNU as rejects the `/` of Go symbol names in the header's __asm labels
+            pl = _run(["clang", "-o", os.path.join(out, "host"), "host.c", "-Wl,--start-group"] + members +
+                      ["-Wl,--end-group", "-lpthread", "-lm", "-ldl"], out, env)
+            rec["link_rc"], rec["link_err"] = pl.returncode, (pl.stdout + pl.stderr)[-1500:]
+            if pl.returncode == 0:
+                _, err, rc = run_prog(os.path.join(out, "host"))
+                rec["real"], rec["rc"] = trace_of(err), rc
+        ctx.log("c-archive %s: build rc %s, link rc %s" % (ba.mod, rec.get("build_rc"), rec.get("link_rc")))
+    results = be.recs + bf.recs + bo.recs + [ba.recs[0] for ba in archs]
 
-    ctx.log("built and ran %d trees (%s)" % (len(results), ", ".join("%s:%s" % (r["name"], r["mode"]) for r in results)))
     # ------------------------------------------------------------------ tie A, part 2: regenerate the table, prove
     if os.path.exists(GEN):
         os.remove(GEN)
@@ -384,7 +439,7 @@ def run(ctx, args):
 
     # ------------------------------------------------------------------ tie E: traces
     n_eval, n_lines, mismatches, spec_fail, indep_order = 0, 0, [], 0, 0
-    stats = {"trees": len(plan), "packages": 0, "with_sync_atomic": 0, "with_unreachable": 0, "diamonds": 0, "modes": {}}
+    stats = {"trees": len(results), "packages": 0, "with_sync_atomic": 0, "with_unreachable": 0, "diamonds": 0, "modes": {}}
     uncovered = []
     samples = []
     spec_gen_mismatch = 0
